@@ -10,6 +10,7 @@ from contextlib import contextmanager
 from . import common as C
 
 MODES = ("interp", "opt", "gen", "optgen")
+TIMEOUTS = 0  # parses cut off by the watchdog in this process (each is reported; callers stop hammering a parser that hangs)
 
 
 class Timeout(Exception):
@@ -103,6 +104,8 @@ def run_parse(pest, parser, rule: str, text: str, start: int = 0, *, tags: bool 
             out["_err"] = e
         return out
     except Timeout:
+        global TIMEOUTS  # noqa: PLW0603
+        TIMEOUTS += 1
         return {"timeout": True}
     except RecursionError:
         return {"exc": "RecursionError"}
